@@ -40,6 +40,12 @@ def cases(tier, seed):
         for s in ([4, 5, 6], [5, 5, 5]):
             if min(s) >= p:
                 out.append({'kind': 'grid3all', 'nprocs': [p], 'shape': s, 'cost': 100})
+    # arrays of exactly bufferSize must suffice for every transpose: lopsided shapes (where a single swap needs more
+    # than any layout's own block) executed through C01's machinery
+    from checks import c01
+    for c in c01.cases(tier, seed):
+        if c['fam'] in ('lop2', 'lop-phys'):
+            out.append({'kind': 'buffer', 'c01case': c, 'cost': c['cost']})
     return out
 
 
@@ -287,6 +293,12 @@ def _gridcase(case):
 
 
 def run_case(case):
+    if case['kind'] == 'buffer':
+        from checks import c01
+        r = c01.run_case(case['c01case'])
+        for v in r['violations']:
+            v['sig'] = 'exact-bufferSize-arrays-do-not-suffice:' + v['sig']
+        return r
     if case['kind'].startswith('direct'):
         return _direct(case)
     return _gridcase(case)
